@@ -57,7 +57,13 @@ func number(n *anode, next *int, root bool) {
 }
 
 func (n anode) build(forms []int, hist ...bool) any {
-	h := len(hist) > 0 && hist[0]
+	return n.buildX(forms, len(hist) > 0 && hist[0], nil)
+}
+
+// buildX with a non-nil late: every nested instance stored in a pointer form is stored as a pointer to a
+// still unset (zero) value; late collects the assignments that fill those values in afterwards, through
+// the pointer's owner and without any call to the parent.
+func (n anode) buildX(forms []int, h bool, late *[]func()) any {
 	switch n.T {
 	case "leaf":
 		return n.V
@@ -67,7 +73,7 @@ func (n anode) build(forms []int, hist ...bool) any {
 		s := newStackKind(n.K)
 		var vals []any
 		for _, k := range n.Kids {
-			vals = append(vals, k.build(forms, h))
+			vals = append(vals, k.buildX(forms, h, late))
 		}
 		fill(s, vals, fillMode(n.String()))
 		if n.Clos {
@@ -89,11 +95,24 @@ func (n anode) build(forms []int, hist ...bool) any {
 			return StackAliasS(s)
 		case "ptr-alias":
 			a := StackAlias(s)
+			if late != nil {
+				a = StackAlias{}
+				*late = append(*late, func() { a = StackAlias(s) })
+			}
 			return &a
 		case "ptr-aliasS":
 			a := StackAliasS(s)
+			if late != nil {
+				a = StackAliasS{}
+				*late = append(*late, func() { a = StackAliasS(s) })
+			}
 			return &a
 		case "ptr-native":
+			if late != nil {
+				var z stackage.Stack
+				*late = append(*late, func() { z = s })
+				return &z
+			}
 			return &s
 		}
 		return s
@@ -101,7 +120,7 @@ func (n anode) build(forms []int, hist ...bool) any {
 		var c stackage.Condition
 		if h {
 			// the tree under test is assembled through a history; the native reference directly
-			c = condHistory(n.Kw, stackage.Ge, n.Kids[0].build(forms, h), fillMode(n.String()+fmt.Sprint(forms)))
+			c = condHistory(n.Kw, stackage.Ge, n.Kids[0].buildX(forms, h, late), fillMode(n.String()+fmt.Sprint(forms)))
 		} else {
 			c = stackage.Cond(n.Kw, stackage.Ge, n.Kids[0].build(forms))
 		}
@@ -118,8 +137,17 @@ func (n anode) build(forms []int, hist ...bool) any {
 			return CondAliasS(c)
 		case "ptr-alias":
 			a := CondAlias(c)
+			if late != nil {
+				a = CondAlias{}
+				*late = append(*late, func() { a = CondAlias(c) })
+			}
 			return &a
 		case "ptr-native":
+			if late != nil {
+				var z stackage.Condition
+				*late = append(*late, func() { z = c })
+				return &z
+			}
 			return &c
 		}
 		return c
@@ -250,6 +278,41 @@ func c12Run(c *Ctx, cs c12Case, count bool) {
 			}
 			c.Violation(key("differs:"+obsClass(pn[i])), fmt.Sprintf("%s: alias tree gives %s, native tree gives %s", desc, got, pn[i]), cs, size)
 			break
+		}
+	}
+	// the same tree once more, with every pointer form stored while the value behind it is still unset and
+	// filled in afterwards by its owner: what counts is what the pointer leads to when the parent is asked
+	hasPtr := false
+	for _, n := range names {
+		if strings.Contains(n, "ptr") {
+			hasPtr = true
+		}
+	}
+	if hasPtr {
+		var pl []string
+		var late []func()
+		p := noPanic(func() {
+			al := cs.Tree.buildX(cs.Forms, true, &late).(stackage.Stack)
+			_ = al.String() // asked once while still hollow
+			al.IsNesting()
+			for _, f := range late {
+				f()
+			}
+			pl, pp = c12Probe(al, 2, 3)
+		})
+		if p != "" || pp != "" {
+			c.Violation(key("panic:filled-later"), desc+", pointer forms filled in after they were stored: "+p+pp, cs, size)
+			return
+		}
+		for i := range pn {
+			if i >= len(pl) || pl[i] != pn[i] {
+				got := "<missing>"
+				if i < len(pl) {
+					got = pl[i]
+				}
+				c.Violation(key("differs-filled-later:"+obsClass(pn[i])), fmt.Sprintf("%s, pointer forms stored while still unset and filled in afterwards: alias tree gives %s, native tree gives %s", desc, got, pn[i]), cs, size)
+				break
+			}
 		}
 	}
 	// IsEqual both ways between the alias tree and the native tree: the answer two native trees give each
